@@ -80,6 +80,12 @@ def shaped_files():
         yield {'cls': 'chain-long-backwards', 'detail': str(n), 'insts': [N(i, i - 1 if i > 1 else None) for i in range(1, n + 1)]}
     yield {'cls': 'cycle-4', 'insts': [N(1, 2), N(2, 3), N(3, 4), N(4, 1)]}
     yield {'cls': 'diamond', 'insts': [N(1, 2, 3), N(2, 4), N(3, 4), N(4)]}
+    # instance names with leading zeros (the grammar allows them; the number is decimal) and files that are not written in ascending order
+    yield {'cls': 'zero-padded-ids', 'insts': ['#001=NODE($,$,1);', '#002=NODE(#001,$,2);', '#010=NODE(#002,#1,10);', '#012=NODE(#010,#0002,12);', '#0020=NODE(#012,#10,20);', "#077=HOLDER((#010,#012),#020,'t');"]}
+    yield {'cls': 'zero-padded-ids', 'insts': ['#08=NODE($,$,8);', '#09=NODE(#08,$,9);', '#0100=NODE(#09,#8,100);']}
+    yield {'cls': 'unordered-ids', 'insts': [N(30), N(31, 30), N(32, 31, 30), "#40=HOLDER((#30,#31,#32),#12,'t');", N(12, 40 and None)]}
+    yield {'cls': 'unordered-ids', 'insts': [N(50, 7), N(7), N(20, 50, 7), N(3, 20)]}
+    yield {'cls': 'unordered-ids', 'insts': [N(9, 8), N(8, 7), N(7, 6), N(6)]}
     yield {'cls': 'sparse-ids', 'insts': ['#7=NODE($,$,7);', '#1000=NODE(#7,$,1);', '#999999=NODE(#1000,#7,2);', "#2147483000=HOLDER((#7,#999999),#1000,'big');"]}
     for s in ("'#1'", "'(#1)'", "'a;#1=NODE($,$,1);'", "'=#2'", "'/*#1*/'", "'it''s #1'", "'\\X\\23 1'", "'#'", "')'"):
         yield {'cls': 'string-content', 'detail': s, 'insts': [N(1), N(2), "#3=HOLDER((#2),$,%s);" % s]}
